@@ -18,6 +18,8 @@ struct CMock {
   MAKE_MOCK0(cv, (vt::task<void, false>()));
   MAKE_MOCK0(clv, (vt::task<void, true>()));
   MAKE_MOCK1(cl1, (vt::ytask<int, true>(int)));      // arity 1: only used by the witness of known finding D12
+  // arity 15, eager start: the clause evaluated DURING the call may read its parameters (op cargs: _1.._15 in CO_ clauses)
+  MAKE_MOCK15(ca, (vt::ytask<int, false>(int, int, int, int, int, int, int, int, int, int, int, int, int, int, int)));
 };
 extern std::unique_ptr<CMock> mk;
 extern std::unique_ptr<trompeloeil::expectation> exps[NSLOT + 1];
